@@ -16,6 +16,8 @@ pub struct VerifState {
     pub gc_at: Vec<u64>,
     /// bypass the utilisation test of `run_gc` for the next call
     pub force_gc: bool,
+    /// bypass the utilisation test of `run_gc` at every call: every collection point collects
+    pub gc_always: bool,
     /// instructions executed by `run_count` / `verif_step` since the VM was created
     pub instructions: u64,
     /// collections that actually ran (marked and swept)
@@ -45,6 +47,11 @@ impl Vm {
 
     pub fn verif_set_gc_at(&mut self, at: Vec<u64>) {
         self.verif.gc_at = at;
+    }
+
+    /// Make every call of `run_gc` (every collection point of the library, wherever it is) collect.
+    pub fn verif_set_gc_always(&mut self, on: bool) {
+        self.verif.gc_always = on;
     }
 
     /// Run a collection now, regardless of heap utilisation.
